@@ -371,6 +371,63 @@ int main(int argc, char** argv) {
     update<c16::foreign_policy>();
 
     world w;
+    if (mode == "cold") {
+        // The FIRST use of every route happens in the threads, unsynchronised: nothing has been called, no virtual_ptr has
+        // been made, before they start (a lazily initialised flag, cache or table written by a first use shows up here and
+        // nowhere else). Every thread keeps the answers of its first pass; the sequential table is computed afterwards and
+        // every thread's first pass is compared with it.
+        std::atomic<int> go{0};
+        std::vector<std::vector<answers>> first(threads, std::vector<answers>(n_shapes));
+        std::atomic<long> unstable{0};
+        std::vector<std::thread> cold;
+        for (int t = 0; t < threads; ++t) {
+            cold.emplace_back([&, t] {
+                prng rng{(std::uint64_t)seed * 0x9E3779B97F4A7C15ULL + t + 1};
+                int order[n_shapes] = {0, 1, 2, 3, 4, 5};
+                for (int k = n_shapes - 1; k > 0; --k) {
+                    std::swap(order[k], order[rng.next() % (k + 1)]);
+                }
+                while (!go.load()) {
+                }
+                for (int sh : order) {
+                    run_shape(sh, w, first[t][sh]);
+                }
+                answers again;
+                for (int it = 1; it < iters; ++it) {
+                    for (int sh : order) {
+                        run_shape(sh, w, again);
+                        if (again != first[t][sh]) {
+                            ++unstable;
+                        }
+                    }
+                }
+            });
+        }
+        go = 1;
+        for (auto& t : cold) {
+            t.join();
+        }
+        long bad = unstable.load();
+        std::size_t per = 0;
+        for (int sh = 0; sh < n_shapes; ++sh) {
+            answers seq;
+            run_shape(sh, w, seq);
+            per += seq.size();
+            for (int t = 0; t < threads; ++t) {
+                if (first[t][sh] != seq) {
+                    ++bad;
+                }
+            }
+        }
+        if (bad == 0) {
+            std::printf("RESULT ok threads=%d iters=%d seed=%d answers_per_iteration=%zu comparisons=%zu\n", threads, iters,
+                        seed, per, per * (std::size_t)threads * (std::size_t)iters);
+        } else {
+            std::printf("RESULT mismatch threads=%d iters=%d bad_iterations=%ld first_bad_answer(shape*100000+index)=-1 foreign_bad=0\n",
+                        threads, iters, bad);
+        }
+        return 0;
+    }
     answers table[n_shapes];
     std::size_t per_iteration = 0;
     for (int sh = 0; sh < n_shapes; ++sh) {
